@@ -114,7 +114,7 @@ def returned_lines_problem(real, mtrace, rows):
     return None
 
 
-def decide(prog, rows, agg, what, known_switches=()):
+def decide(prog, rows, agg, what, known_switches=(), extra_check=None):
     """-> (status, info)
     status: held | undecided | violation | known ; info: reason / witness"""
     try:
@@ -146,6 +146,8 @@ def decide(prog, rows, agg, what, known_switches=()):
     d = compare(real, mtrace, what)
     if d is None and "match" in what:
         d = returned_lines_problem(real, mtrace, rows)
+    if d is None and extra_check is not None:
+        d = extra_check(real, mtrace, m)
     if d is None:
         return "held", {"program": real["text"], "rows": rows[:4], "trace_head": [(t["pln"], t["matched"]) for t in mtrace[:4]]}
     witness["divergence"] = d
@@ -159,6 +161,8 @@ def decide(prog, rows, agg, what, known_switches=()):
             d2 = compare(real, mtrace2, what)
             if d2 is None and "match" in what:
                 d2 = returned_lines_problem(real, mtrace2, rows)
+            if d2 is None and extra_check is not None:
+                d2 = extra_check(real, mtrace2, m2)
             if d2 is None:
                 return "known", (sorted(cand)[0], witness)
             witness["residual_after_emulating"] = {"emulated": cand, "divergence": d2}
